@@ -248,6 +248,8 @@ const (
 	kUpdate
 	kRedecode
 	kReblock
+	kFork
+	kForkUpdate
 	kCid
 	kRaw
 	kLinks
@@ -257,6 +259,7 @@ const (
 )
 
 type hop struct {
+	node int // family histories: index of the node the call goes to
 	k    opk
 	l    lnk    // add / update / remove(name)
 	data []byte // setdata
@@ -294,6 +297,10 @@ func (o hop) String() string {
 		return "n=DecodeProtobuf(n.RawData())"
 	case kReblock:
 		return "n=DecodeProtobufBlock(block(n.RawData(),n.Cid()))"
+	case kFork:
+		return "new=Copy()"
+	case kForkUpdate:
+		return "new=UpdateNodeLink(" + o.l.String() + ")"
 	case kCid:
 		return "Cid"
 	case kRaw:
@@ -321,6 +328,7 @@ func child(i int) *merkledag.ProtoNode {
 }
 
 type history struct {
+	multi bool // a family of nodes: ops carry a node index, kFork/kForkUpdate append nodes
 	d0  []byte
 	ops []hop
 }
@@ -375,8 +383,28 @@ func runHistory(t *testing.T, h history) runResult {
 		return "BOk"
 	}
 	mutations, reads, staleWindow := 0, 0, false
+	nodes := []*merkledag.ProtoNode{n}
 	for _, o := range h.ops {
+		n = nodes[o.node]
+		nops := len(ops)
 		switch o.k {
+		case kFork:
+			ops = append(ops, fmt.Sprintf("(MFork %d%%nat)", o.node))
+			nodes = append(nodes, n.Copy().(*merkledag.ProtoNode))
+			obs = append(obs, "BOk")
+		case kForkUpdate:
+			ch := child(int(o.l.size))
+			sz, err := ch.Size()
+			if err != nil {
+				t.Fatal(err)
+			}
+			ops = append(ops, vh.App("MForkUpdate", fmt.Sprintf("%d%%nat", o.node), B([]byte(o.l.name)), vh.ZU(sz), cidCoq(ch.Cid())))
+			nn, err := n.UpdateNodeLink(o.l.name, ch)
+			if err == nil {
+				nodes = append(nodes, nn)
+			}
+			obs = append(obs, okErr(err))
+			mutations++
 		case kAdd:
 			ops = append(ops, vh.App("OAdd", B([]byte(o.l.name)), vh.ZU(o.l.size), cidCoq(o.l.c)))
 			obs = append(obs, okErr(n.AddRawLink(o.l.name, &format.Link{Name: "ignored", Size: o.l.size, Cid: o.l.c})))
@@ -490,9 +518,17 @@ func runHistory(t *testing.T, h history) runResult {
 			obs = append(obs, vh.App("BDecode", decodedCoq(merkledag.DecodeProtobuf(raw))))
 			reads++
 		}
+		nodes[o.node] = n
+		if h.multi && o.k != kFork && o.k != kForkUpdate {
+			ops[nops] = fmt.Sprintf("(MOp %d%%nat %s)", o.node, ops[nops])
+		}
 	}
-	term := cur.finish(vh.App("CRun", dataCoq(h.d0), vh.List(tab), vh.List(ops), vh.List(obs)))
-	return runResult{term: term, nontrivial: mutations >= 3 && reads >= 3 && staleWindow,
+	ctor := "CRun"
+	if h.multi {
+		ctor = "CMulti"
+	}
+	term := cur.finish(vh.App(ctor, dataCoq(h.d0), vh.List(tab), vh.List(ops), vh.List(obs)))
+	return runResult{term: term, nontrivial: mutations >= 3 && reads >= 3 && (staleWindow || h.multi),
 		key: strings.Join(ops, ";") + "|" + dataCoq(h.d0)}
 }
 
@@ -668,6 +704,126 @@ func genWide(e *vh.Env) history {
 	}
 	h.ops = append(h.ops, hop{k: kCid}, hop{k: kRaw}, hop{k: kLinks})
 	return h
+}
+
+
+// genFamily: a family of nodes related by Copy / UpdateNodeLink.  Node 0 gets a few
+// links and is usually read (so its links are in sorted order); then forks and
+// mutations of any member alternate, and after every mutation ALL OTHER members
+// are read back (Links, and Cid or DecodeProtobuf(RawData)); now and then another
+// member is forced to re-encode (SetData) before its Cid is read.
+func genFamily(e *vh.Env) history {
+	r := e.Rng
+	h := history{multi: true, d0: []byte{byte(r.Intn(256))}}
+	pool := []string{"a", "b", "c", "d", "e", "", "ab"}
+	count := 1
+	var present []string
+	add := func(node int) {
+		nm := pool[r.Intn(len(pool))]
+		h.ops = append(h.ops, hop{node: node, k: kAdd, l: lnk{name: nm, size: uint64(r.Intn(300)), c: linkCids[r.Intn(6)]}})
+		present = append(present, nm)
+	}
+	for i, n := 0, 2+r.Intn(5); i < n; i++ {
+		add(0)
+	}
+	if r.Intn(5) != 0 {
+		h.ops = append(h.ops, hop{node: 0, k: []opk{kCid, kLinks, kRaw, kTree}[r.Intn(4)]})
+	}
+	sweep := func(except int) {
+		for j := 0; j < count; j++ {
+			if j == except {
+				continue
+			}
+			h.ops = append(h.ops, hop{node: j, k: kLinks})
+			switch r.Intn(6) {
+			case 0, 1:
+				h.ops = append(h.ops, hop{node: j, k: kCid})
+			case 2:
+				h.ops = append(h.ops, hop{node: j, k: kDecode})
+			case 3:
+				h.ops = append(h.ops, hop{node: j, k: kSetData, data: []byte{byte(r.Intn(4))}}, hop{node: j, k: kCid})
+			}
+		}
+	}
+	for step, n := 0, 4+r.Intn(9); step < n; step++ {
+		i := r.Intn(count)
+		switch x := r.Intn(20); {
+		case x < 5 && count < 4:
+			h.ops = append(h.ops, hop{node: i, k: kFork})
+			count++
+		case x < 8 && count < 4:
+			nm := pool[r.Intn(len(pool))]
+			if len(present) > 0 && r.Intn(3) != 0 {
+				nm = present[r.Intn(len(present))]
+			}
+			h.ops = append(h.ops, hop{node: i, k: kForkUpdate, l: lnk{name: nm, size: uint64(r.Intn(6))}})
+			present = append(present, nm)
+			count++ // UpdateNodeLink with a real child cannot fail
+		case x < 14:
+			nm := pool[r.Intn(len(pool))]
+			if len(present) > 0 && r.Intn(5) != 0 {
+				nm = present[r.Intn(len(present))]
+			}
+			h.ops = append(h.ops, hop{node: i, k: kRemove, l: lnk{name: nm}})
+			if r.Intn(3) == 0 {
+				add(i)
+			}
+			if r.Intn(2) == 0 {
+				h.ops = append(h.ops, hop{node: i, k: []opk{kLinks, kCid, kTree}[r.Intn(3)]})
+			}
+			sweep(i)
+		case x < 18:
+			add(i)
+			h.ops = append(h.ops, hop{node: i, k: []opk{kLinks, kCid, kRaw}[r.Intn(3)]})
+			sweep(i)
+		case x < 19:
+			h.ops = append(h.ops, hop{node: i, k: kUpdate, l: lnk{name: pool[r.Intn(len(pool))], size: uint64(r.Intn(6))}})
+			sweep(i)
+		default:
+			h.ops = append(h.ops, hop{node: i, k: []opk{kRedecode, kReblock, kCopy}[r.Intn(3)]})
+			sweep(i)
+		}
+	}
+	for j := 0; j < count; j++ {
+		h.ops = append(h.ops, hop{node: j, k: kLinks}, hop{node: j, k: kCid}, hop{node: j, k: kDecode})
+	}
+	return h
+}
+
+func familyCorpus() []history {
+	A := func(node int, name string, size uint64) hop {
+		return hop{node: node, k: kAdd, l: lnk{name, size, linkCids[1]}}
+	}
+	O := func(node int, k opk) hop { return hop{node: node, k: k} }
+	Rm := func(node int, name string) hop { return hop{node: node, k: kRemove, l: lnk{name: name}} }
+	hs := []history{
+		// remove on the copy, read the original (also after a forced re-encode)
+		{d0: []byte("f"), ops: []hop{A(0, "a", 1), A(0, "b", 2), A(0, "c", 3), O(0, kCid), O(0, kFork), Rm(1, "a"), O(0, kLinks), O(0, kDecode),
+			{node: 0, k: kSetData, data: []byte("g")}, O(0, kCid), O(0, kDecode), O(1, kLinks)}},
+		// UpdateNodeLink on an existing name works on a copy
+		{d0: []byte("f"), ops: []hop{A(0, "a", 1), A(0, "b", 2), A(0, "c", 3), O(0, kLinks), {node: 0, k: kForkUpdate, l: lnk{name: "a", size: 2}},
+			O(0, kLinks), O(0, kCid), O(0, kDecode), O(1, kLinks), O(1, kCid)}},
+		// remove on the original, read the copy
+		{d0: nil, ops: []hop{A(0, "a", 1), A(0, "b", 2), A(0, "c", 3), O(0, kRaw), O(0, kFork), Rm(0, "b"), O(0, kLinks), O(1, kLinks), O(1, kCid), O(1, kDecode)}},
+		// add to the original (spare capacity) with a name sorting first, sort, read the copy
+		{d0: nil, ops: []hop{A(0, "b", 1), A(0, "c", 2), A(0, "d", 3), O(0, kLinks), O(0, kFork), A(0, "a", 4), O(0, kLinks), O(1, kLinks), O(1, kDecode), O(1, kCid)}},
+		// remove + add + sort on a copy of a copy
+		{d0: []byte("x"), ops: []hop{A(0, "a", 1), A(0, "b", 2), A(0, "c", 3), A(0, "d", 4), O(0, kTree), O(0, kFork), O(1, kFork), Rm(2, "b"), A(2, "", 9), O(2, kLinks),
+			O(0, kLinks), O(1, kLinks), O(0, kCid), O(1, kCid)}},
+	}
+	for i := range hs {
+		hs[i].multi = true
+		cnt := 1
+		for _, o := range hs[i].ops {
+			if o.k == kFork || o.k == kForkUpdate {
+				cnt++
+			}
+		}
+		for j := 0; j < cnt; j++ {
+			hs[i].ops = append(hs[i].ops, hop{node: j, k: kLinks}, hop{node: j, k: kCid})
+		}
+	}
+	return hs
 }
 
 func corpus() []history {
@@ -875,13 +1031,14 @@ func TestC11(t *testing.T) {
 	e := vh.Load(t)
 	st := vh.NewStats("histories of 0..20 random ProtoNode calls (AddRawLink/AddNodeLink/RemoveNodeLink/SetData/SetCidBuilder/SetLinks/" +
 		"Copy/UpdateNodeLink/re-decode, reads Cid/RawData/Links/Data/Tree/DecodeProtobuf interleaved) + 5 final reads, every answer compared; " +
-		"non-trivial = at least 3 mutations, 3 reads and one builder change; distinct by op sequence. " +
+		"non-trivial = at least 3 mutations, 3 reads and one builder change (families: 3 mutations and 3 reads); distinct by op sequence. " +
+		"Every 5th history is a family of up to 4 nodes forked by Copy/UpdateNodeLink: after every mutation of one member all other members are read back. " +
 		"Second stream: DecodeProtobuf on non-canonical / malformed encodings against the Coq decoder")
 	initSyms()
 	cs := vh.NewCases(e, "From V Require Import lib.C11_DagPb model.M_C11.\nOpen Scope Z_scope.\n"+strings.Join(preambleDefs, "\n"), "case", "check_case", 250)
 	nRun := e.Pick(1000, 12000)
 	nDec := e.Pick(750, 8000)
-	hs := corpus()
+	hs := append(corpus(), familyCorpus()...)
 	for i := 0; i < nRun; i++ {
 		var h history
 		if i < len(hs) {
@@ -890,6 +1047,8 @@ func TestC11(t *testing.T) {
 		} else if i%25 == 7 {
 			h = genWide(e)
 			st.Count("wide")
+		} else if i%5 == 3 {
+			h = genFamily(e)
 		} else {
 			h = genHistory(e)
 		}
@@ -898,11 +1057,19 @@ func TestC11(t *testing.T) {
 		for j, o := range h.ops {
 			desc[j] = o.String()
 			st.Count("op:" + strings.SplitN(desc[j], "(", 2)[0])
+			if h.multi {
+				desc[j] = fmt.Sprintf("n%d.%s", o.node, desc[j])
+			}
 		}
-		rp := map[string]any{"kind": "history", "data0": h.d0, "data0_nil": h.d0 == nil, "ops": desc}
+		kind := "history"
+		if h.multi {
+			kind = "family"
+			st.Count("family")
+		}
+		rp := map[string]any{"kind": kind, "data0": h.d0, "data0_nil": h.d0 == nil, "ops": desc}
 		cs.Add(res.term, rp)
 		st.Case(res.key, res.nontrivial)
-		st.Count(fmt.Sprintf("len=%d", max(len(h.ops)-len(finalReads), 0)/5*5))
+		st.Count(fmt.Sprintf("len=%d", min(max(len(h.ops)-len(finalReads), 0)/5*5, 60)))
 		st.Sample(rp, 4)
 	}
 	dc := decodeCorpus()
